@@ -570,3 +570,21 @@ Proof.
   exists ex_fchain, ex_aos, (2%N, mkObs [] [] [(1, [(10, [ex_t; mkTok true 4])])] [] []), 1%N, 10%N.
   split; [repeat constructor; cbn; intuition discriminate|]. repeat split; vm_compute; reflexivity.
 Qed.
+
+(* ---------- C07_token, the other direction: a slot value with f+1 agreeing reporters and no rival is delivered ---------- *)
+Theorem tok_slot_consensus thr c s i aos t :
+  (0 < thr)%N ->
+  (thr <= N.of_nat (length (supporters tok_eqb (tok_at c s i) t aos)))%N ->
+  (forall t', (thr <= N.of_nat (length (supporters tok_eqb (tok_at c s i) t' aos)))%N -> t' = t) ->
+  tok_slot thr c s aos i = t.
+Proof.
+  intros Hthr Hs Huniq. unfold tok_slot.
+  assert (Hnd : forall a, In a aos -> NoDup (tok_at c s i (snd a))) by (intros; apply tok_at_nodup).
+  assert (E : valid tok_eqb thr (tok_votes c s i aos) = [t]).
+  { apply (valid_single_iff tok_eqb tok_eqb_spec); [exact Hthr|].
+    change (tok_votes c s i aos) with (items_of (tok_at c s i) aos).
+    split.
+    - now rewrite (count_items tok_eqb tok_eqb_spec (tok_at c s i) t aos Hnd).
+    - intros x Hx. apply Huniq. now rewrite <- (count_items tok_eqb tok_eqb_spec (tok_at c s i) x aos Hnd). }
+  now rewrite E.
+Qed.
